@@ -10,6 +10,8 @@ CONSTANTS
   H = 3
   MaxNow = 8
   MaxNet = 2
+  MaxRxq = 2
+  MaxGwResend = 1
   DupBudget = 0
   LossBudget = 1
   InjBudget = 0
